@@ -1,6 +1,6 @@
 (** C05 — Simultaneous mutual dials converge on one shared connection. *)
-From AnemoVerif Require Import Base ActivePeers MutualDial.
-From AnemoVerif.Proofs Require Import MutualDial_proofs.
+From AnemoVerif Require Import Base ActivePeers MutualDial MutualDialLimit.
+From AnemoVerif.Proofs Require Import MutualDial_proofs MutualDialLimit_proofs.
 
 (** The two ends reach complementary decisions on the same pair of connections, in whichever
     order each saw them: the connection dialed by the greater identity is kept. *)
@@ -49,6 +49,45 @@ Theorem C05_survivor_depends_only_on_ids : forall a b ls s',
   entry (sa s') = Some (survivor (a <? b)) /\ entry (sb s') = Some (survivor (a <? b)).
 Proof. intros a b ls s' _. exact (maximal_schedule_outcome (a <? b) ls s'). Qed.
 
+(** With a connection limit of 1 at either node, which this very pair fills (MutualDialLimit.v: the
+    inbound connection is checked against the limit when it arrives, before the acknowledgement the
+    dialer waits for; [placement 0/1/2] = no limit / limit at A / limit at B): every schedule still ends
+    with both ends holding one and the same connection, its handlers running - one of the two dials may
+    have been refused, never both dropped; every step decreases the measure (at most 12 steps). *)
+Theorem C05_convergence_under_a_limit : forall a b k s,
+  a <> b -> (k <? 3) = true -> lreachable (placement k) false (a <? b) s -> lterminal s = true ->
+  converged_somewhere s = true.
+Proof. intros a b k s _. exact (limit_convergence k (a <? b) s). Qed.
+
+Theorem C05_limit_steps_decrease_measure : forall a b k s l,
+  a <> b -> (k <? 3) = true -> lreachable (placement k) false (a <? b) s -> lenabled s l = true ->
+  lmeasure (ldo_step (placement k) false (a <? b) s l) < lmeasure s.
+Proof. intros a b k s l _. exact (limit_step_decreases k (a <? b) s l). Qed.
+
+(** Without a limit the extended system agrees with the tie-break, as before. *)
+Theorem C05_no_limit_survivor : forall a b s,
+  a <> b -> lreachable no_limit false (a <? b) s -> lterminal s = true -> converged_on (survivor (a <? b)) s = true.
+Proof. intros a b s _. exact (nolimit_convergence (a <? b) s). Qed.
+
+(** Who can survive under a limit (compared with the implementation's survivor in every limited run). *)
+Theorem C05_survivor_under_a_limit : forall a b k s c,
+  a <> b -> (k <? 3) = true -> lreachable (placement k) false (a <? b) s -> lterminal s = true ->
+  converged_on c s = true -> In c (possible_survivors (placement k) (a <? b)).
+Proof. intros a b k s c _. exact (terminal_survivor_is_possible k (a <? b) s c). Qed.
+
+Theorem C05_possible_survivors_table :
+  possible_survivors no_limit true = [CY] /\ possible_survivors no_limit false = [CX]
+  /\ possible_survivors (limit_at NA) true = [CX; CY] /\ possible_survivors (limit_at NA) false = [CX]
+  /\ possible_survivors (limit_at NB) true = [CY] /\ possible_survivors (limit_at NB) false = [CX; CY].
+Proof. exact possible_survivors_table. Qed.
+
+(** Checking the limit once more after the listener's handshake, counting the peer's own existing entry
+    (seeded change C05-f), is refuted by the model: a schedule after which neither end holds a connection. *)
+Theorem C05_late_recheck_refuted :
+  exists ls s, lrun (limit_at NA) true true linit ls = Some s
+               /\ lterminal s = true /\ lentry (la s) = None /\ lentry (lb s) = None.
+Proof. exact late_recheck_refuted. Qed.
+
 Example C05_ex_schedule :   (* A < B: both register their own dial first, Y survives *)
   match run_schedule true init [Ready NA CX; Ready NB CY; Ready NB CX; Ready NA CY; Notice NA CX] with
   | Some s => terminal s = true /\ entry (sa s) = Some CY /\ entry (sb s) = Some CY
@@ -63,3 +102,9 @@ Print Assumptions C05_survivor_never_closed.
 Print Assumptions C05_convergence.
 Print Assumptions C05_schedules_terminate.
 Print Assumptions C05_survivor_depends_only_on_ids.
+Print Assumptions C05_convergence_under_a_limit.
+Print Assumptions C05_limit_steps_decrease_measure.
+Print Assumptions C05_no_limit_survivor.
+Print Assumptions C05_survivor_under_a_limit.
+Print Assumptions C05_possible_survivors_table.
+Print Assumptions C05_late_recheck_refuted.
